@@ -11,7 +11,8 @@
    Coq's classical reals; rounding / overflow of floats is not modelled. *)
 From Coq Require Import Reals ZArith Bool List String QArith.
 From Coquelicot Require Import Coquelicot.
-From V Require Import Base.FieldSig Base.ExecQ Model.VolumeModel Gen.MapsMap Model.Maps Proofs.Maps.
+From V Require Import Base.FieldSig Base.ExecQ Model.VolumeModel Gen.MapsMap Model.Maps Proofs.Maps
+     Gen.MapsSetter Model.MapsSetter Proofs.MapsSetter.
 Import ListNotations.
 Local Open Scope R_scope.
 
@@ -221,3 +222,98 @@ Example validation_examples :
   check_pf_Q MLgResistivity None PY [Fin (300#1)]%Q = None.
 Proof. exact validation_examples_Q. Qed.
 Print Assumptions validation_examples.
+
+(* ---- 5. fault path of a refused assignment; validity along histories (round 6) -- *)
+(* [set_param md p vs] interprets the event list of the setter of p AS IT STANDS IN
+   emg3d/models.py (Gen/MapsSetter.v, re-extracted on every run: check / store in
+   source order; a failing event ends the call and nothing is rolled back).  It
+   behaves as the specification setter: check first, store only when accepted. *)
+Theorem setters_check_before_store (md : model (F:=R)) p vs :
+  set_param Rpos0 Risz backward no_ovf 0 md p vs
+  = match model_set Rpos0 Risz backward no_ovf 0 md p vs with
+    | inl md' => (md', None)
+    | inr e => (md, Some e)
+    end.
+Proof. exact (set_param_is_spec Rpos0 Risz backward no_ovf 0 md p vs). Qed.
+Print Assumptions setters_check_before_store.
+
+(* a refused assignment (any error: non-positive, non-finite, None property) leaves
+   EVERY stored parameter as it was *)
+Theorem rejected_assignment_leaves_model_unchanged (md : model (F:=R)) p vs :
+  snd (set_param Rpos0 Risz backward no_ovf 0 md p vs) <> None ->
+  fst (set_param Rpos0 Risz backward no_ovf 0 md p vs) = md.
+Proof. exact (set_param_rejected_unchanged Rpos0 Risz backward no_ovf 0 md p vs). Qed.
+Print Assumptions rejected_assignment_leaves_model_unchanged.
+
+(* the same for any number type (the executable Q instance falls under it) *)
+Theorem rejected_assignment_leaves_model_unchanged_generic {F : Type} (pos0 isz : F -> bool)
+        (bwF : mapid -> F -> F) (ovf : mapid -> F -> option (xval F)) (zero : F)
+        (md : model (F:=F)) p vs :
+  snd (set_param pos0 isz bwF ovf zero md p vs) <> None ->
+  fst (set_param pos0 isz bwF ovf zero md p vs) = md.
+Proof. exact (set_param_rejected_unchanged pos0 isz bwF ovf zero md p vs). Qed.
+Print Assumptions rejected_assignment_leaves_model_unchanged_generic.
+
+(* accepted exactly when the property was initiated and every cell passes; then the
+   values are stored *)
+Theorem set_param_acceptance (md : model (F:=R)) p vs :
+  (snd (set_param Rpos0 Risz backward no_ovf 0 md p vs) = None <->
+   get_prop md p <> None /\
+   List.Forall (accepts Rpos0 Risz backward no_ovf 0 (m_map md) p) vs) /\
+  (snd (set_param Rpos0 Risz backward no_ovf 0 md p vs) = None ->
+   fst (set_param Rpos0 Risz backward no_ovf 0 md p vs) = set_prop md p (Some vs)).
+Proof. exact (set_param_spec Rpos0 Risz backward no_ovf 0 Rpos0_zero md p vs). Qed.
+Print Assumptions set_param_acceptance.
+
+(* any history of refused plain assignments is the identity on the model *)
+Theorem refused_assignments_are_identity (md : model (F:=R)) ops :
+  List.Forall is_set ops ->
+  List.Forall (fun e => e <> None) (outcomes Rpos0 Risz backward no_ovf 0 md ops) ->
+  run_ops Rpos0 Risz backward no_ovf 0 md ops = md /\
+  List.Forall (fun m => m = md) (trace Rpos0 Risz backward no_ovf 0 md ops).
+Proof. exact (refused_history_identity Rpos0 Risz backward no_ovf 0 ops md). Qed.
+Print Assumptions refused_assignments_are_identity.
+
+(* INVARIANT, by induction over operation sequences: the constructed model and the
+   model after EVERY operation of any history -- plain assignments accepted or
+   refused, augmented assignments `model.p op= k` that are not refused by the
+   validation (aug_clean; see below) -- holds only finite cells with positive
+   back-mapped conductivity / mu_r / epsilon_r, and keeps anisotropy case and map *)
+Theorem reachable_models_positive_finite mapping x y z mu eps (md0 : model (F:=R)) ops :
+  model_init Rpos0 Risz backward no_ovf 0 mapping x y z mu eps = inl md0 ->
+  aug_clean Rpos0 Risz backward no_ovf 0 md0 ops ->
+  List.Forall (fun m => model_pos_finite m /\ case_of m = case_of md0 /\ m_map m = m_map md0)
+              (md0 :: trace Rpos0 Risz backward no_ovf 0 md0 ops).
+Proof. exact (reachable_pos_finite mapping x y z mu eps md0 ops). Qed.
+Print Assumptions reachable_models_positive_finite.
+
+Theorem history_preserves_validity (md : model (F:=R)) ops :
+  model_valid Rpos0 Risz backward no_ovf 0 md ->
+  aug_clean Rpos0 Risz backward no_ovf 0 md ops ->
+  model_valid Rpos0 Risz backward no_ovf 0 (run_ops Rpos0 Risz backward no_ovf 0 md ops) /\
+  same_frame md (run_ops Rpos0 Risz backward no_ovf 0 md ops).
+Proof. exact (run_ops_valid Rpos0 Risz backward no_ovf 0 Rpos0_zero ops md). Qed.
+Print Assumptions history_preserves_validity.
+
+(* non-vacuity on the executable instance: refused assignments of every kind
+   (10**-400 = 0, 10**400 = inf, nan, -inf, mu_r = 0, mu_r = inf, None property)
+   return the model unchanged; an accepted one stores.  The last two conjuncts are
+   why aug_clean is needed: a REFUSED AUGMENTED assignment `model.mu_r *= -1` has
+   already changed the stored array (numpy operates in place before the setter
+   runs; the setter cannot undo it) and the model then holds values its own check
+   refuses. *)
+Example fault_path_examples :
+  (set_param_Q ex_md PX [Fin (2#1); Fin (400#1)] = (ex_md, Some ErrPositive) /\
+   set_param_Q ex_md PX [Fin (2#1); Fin (-400#1)] = (ex_md, Some ErrFinite) /\
+   set_param_Q ex_md PZ [NaN; Fin (1#1)] = (ex_md, Some ErrPositive) /\
+   set_param_Q ex_md PZ [Fin (1#1); NInf] = (ex_md, Some ErrFinite) /\
+   set_param_Q ex_md PMu [Fin (1#1); Fin (0#1)] = (ex_md, Some ErrPositive) /\
+   set_param_Q ex_md PMu [Fin (1#1); PInf] = (ex_md, Some ErrFinite) /\
+   set_param_Q ex_md PY [Fin (1#1); Fin (1#1)] = (ex_md, Some ErrNone) /\
+   set_param_Q ex_md PX [Fin (5#1); Fin (-300#1)]
+     = (set_prop ex_md PX (Some [Fin (5#1); Fin (-300#1)]), None) /\
+   step_Q ex_md (OpAug PMu [Fin (-3#2); Fin (-2#1)])
+     = (set_prop ex_md PMu (Some [Fin (-3#2); Fin (-2#1)]), Some ErrPositive) /\
+   check_pf_Q MLgResistivity None PMu [Fin (-3#2); Fin (-2#1)] = Some ErrPositive)%Q.
+Proof. exact fault_path_examples_Q. Qed.
+Print Assumptions fault_path_examples.
